@@ -6,13 +6,14 @@ import fam_sync as fs
 from checks_chain import merge
 from checks_misc import build_rig
 
-LIMITS = ("L1-announcement-not-followed", "L2-no-sync-candidate-left", "L3-lagging-sync-peer")
+LIMITS = ("L1-announcement-not-followed", "L2-no-sync-candidate-left", "L3-lagging-sync-peer", "X1-inv-ignored")
 
 ASSUME = ["legacy engine: real p2p.newServer + SyncManager + peer objects + SQL stack, offline, scripted protocol nodes on loopback TCP (127.0.0.x)",
           "behaviours are lock-step: one environment event, then the service is allowed to finish (ping/pong + manager + server barriers); free interleavings are explored on Sync.tla by TLC",
           "nodes answer getheaders by the protocol rule; the sync-peer choice among several equal candidates is random in the code, so only single-candidate situations are generated for replay",
           "stall timers (30 s tick, 3 min) are compile-time constants: stalls are modelled as the node going away",
-          "E1: an honest node stays connected; E2: connected nodes answer every getheaders"]
+          "E1: an honest node stays connected; E2: connected nodes answer every getheaders",
+          "experimental engine: real internal/transports/p2p/peer.Peer dialling one scripted node (its single-outbound-peer design), real services and SQL store; SyncExp.tla"]
 
 
 def families(tier, F):
@@ -31,6 +32,21 @@ def families(tier, F):
     return fam
 
 
+def exp_families(tier, F):
+    q = tier == "quick"
+    fam = [
+        ("xa", fs.exp_consts(5, CpHs=(2, 4), Cap=2, MaxEnv=6, Findings=F, Emit="paths", Scenario="experimental: two checkpoints, cap 2")),
+        ("xb", fs.exp_consts(4, CpHs=(), Cap=3, MaxEnv=6, Findings=F, Emit="paths", Scenario="experimental: no checkpoints")),
+        ("xc", fs.exp_consts(3, F=3, ForkAt=0, CpHs=(2,), Cap=4, MaxEnv=5, Findings=F, Emit="paths", Scenario="experimental: node on a branch contradicting the checkpoint")),
+        ("xd", fs.exp_consts(3, F=2, ForkAt=1, CpHs=(1,), Cap=4, Forbid=(4,), MaxEnv=6, Findings=F, Emit="paths", Scenario="experimental: forbidden header on a fork branch")),
+    ]
+    if not q:
+        fam += [("xe", fs.exp_consts(7, CpHs=(3, 7), Cap=2, MaxEnv=7, Findings=F, Emit="paths", Scenario="experimental: seven blocks, last checkpoint at the tip")),
+                ("xf", fs.exp_consts(3, F=4, ForkAt=1, CpHs=(1,), Cap=4, MaxEnv=7, Findings=F, Emit="paths", Scenario="experimental: longer fork after the checkpoint")),
+                ("xg", fs.exp_consts(4, F=2, ForkAt=2, CpHs=(), Cap=1, Forbid=(3,), MaxEnv=7, Findings=F, Emit="paths", Scenario="experimental: forbidden header on the main branch, cap 1"))]
+    return fam
+
+
 def sync_run(prop, tier, seed, kinds, replay_path):
     rigbin = build_rig()
     rng = random.Random(seed)
@@ -41,7 +57,10 @@ def sync_run(prop, tier, seed, kinds, replay_path):
         payload = json.load(open(replay_path))
         p = os.path.join(c.sub("replay"), "one.jsonl")
         open(p, "w").write(json.dumps(payload["case"]["behaviour"]) + "\n")
-        agg = fc.replay(rigbin, p, seed, op="sync", nproc=1)
+        if payload["case"].get("engine") == "experimental":
+            agg = fc.replay(fc.build(), p, seed, op="syncexp", nproc=1)
+        else:
+            agg = fc.replay(rigbin, p, seed, op="sync", nproc=1)
         return verdict(prop, agg, [], kinds, listed, {})
     # design: the manager state machine on every lock-step behaviour of the scenario family (VIEW without history)
     for tag, consts in families(tier, F)[:3 if tier == "quick" else 8]:
@@ -58,6 +77,23 @@ def sync_run(prop, tier, seed, kinds, replay_path):
         runs.append(r)
         gen[tag] = {"behaviours": n, "scenario": consts["Scenario"]}
         aggs.append(fc.replay(rigbin, out, seed, op="sync", nproc=c.NCPU))
+    # the experimental engine (SyncExp.tla): exhaustive bounded check, then every lock-step behaviour (sampled) on the real Peer
+    chainbin = fc.build()
+    xn = 1500 if tier == "quick" else 20000
+    for tag, consts in exp_families(tier, F):
+        pc = dict(consts)
+        pc["Emit"] = '"none"'
+        r = fs.tlc_exp(pc, ["XStoreValid", "XForbiddenNeverStored", "ConvergesOrListed"], workers=c.NCPU)
+        if not r.ok:
+            c.tlc_must_pass(r, "MC_SyncExp " + tag)
+        runs.append(r)
+        out, n, r = fs.generate_exp(prop + tag, consts, sample=xn, rng=rng)
+        runs.append(r)
+        gen[tag] = {"behaviours": n, "scenario": consts["Scenario"]}
+        a = fc.replay(chainbin, out, seed, op="syncexp", nproc=c.NCPU, timeout=600)
+        for m in a["mismatches"]:
+            m["engine"] = "experimental"
+        aggs.append(a)
     agg = merge(aggs)
     return verdict(prop, agg, runs, kinds, listed, gen)
 
@@ -84,7 +120,7 @@ def verdict(prop, agg, runs, kinds, listed, gen):
             continue
         seen.add(key)
         beh = fc.behaviour_at(m["shard"], m["line"])
-        viol.append(("%s: expected %s, got %s" % (m["kind"], m["exp"], m["got"]), {"family": "sync", "behaviour": beh, "mismatch": m}))
+        viol.append(("%s: expected %s, got %s" % (m["kind"], m["exp"], m["got"]), {"family": "sync", "engine": m.get("engine", "legacy"), "behaviour": beh, "mismatch": m}))
     st = agg["stats"]
     if prop == "C06":
         for dev, f in sorted(listed.items()):
